@@ -569,3 +569,15 @@ contract(F + "PrecomputedCategoricalDissimilarity.d",
                      name="matrix-entry-of-the-two-category-names-times-delta_empty")],
          hooks=[],
          serves={"C04"})
+
+# ---- recomputation path (C03 D2): disorders of an alignment = kernel o encoding
+contract(F + "AbstractDissimilarity.compute_disorder",
+         params={"self": DISSIM(), "alignment": _ALIGN()}, returns=NdArray("f32", 1), modifies=[], macros=ARR_MACROS,
+         requires=["not isnone(alignment.continuum)", "len(L()) >= 1", "well_formed()", "nS() >= 2", "self.delta_empty >= 0",
+                   "forall(t, 0, len(L()), forall(s, 0, nS(), implies(not isnone(slotAt(t, s)) and some(slotAt(t, s)).haslab, "
+                   "catmem2()[some(slotAt(t, s)).lab])))",
+                   "forall(t, 0, len(L()), forall(s, 0, nS(), implies(not isnone(slotAt(t, s)), some(slotAt(t, s)).e - some(slotAt(t, s)).s > 1e-6)))"],
+         raises={"AssertionError": {"iff": "not forall([(l, Real)], implies(Cat(CC())[l], catmem2()[l]))"}},
+         ensures=[cl("len(result) == len(L())", "C03", name="one-disorder-per-unitary-alignment")],
+         notes="the values are those of the kernel contract (_compute_alignment_disorders) on the rank-indexed encoding (_build_arrays_alignment)",
+         serves={"C03"})
